@@ -50,6 +50,8 @@ ExpectedSql(K) == UNION {SqlImage(i) : i \in Primary(K) \cap Ids}
 
 
 \* C10: every index entry has its record, every record all its entries, nothing under a foreign value
+\* an entry (index key / tags row) whose record is gone: every key ends with the id of the record it belongs to
+EntriesWithoutRecord(K) == {k \in K : k # Sentinel /\ k[1] # "id" /\ k[Len(k)] \notin Primary(K)}
 Dangling(K) == K \ Expected(K)          \* entries without record / under a value the event does not have / garbage
 Missing(K)  == Expected(K) \ K          \* entries a stored record lacks
 IsIdle == phase[1] = "idle"
